@@ -165,6 +165,63 @@ def run_one(prog, av):
     return trace, flat, keys, list(PROPERTY_FAILS)
 
 
+def directed_probes():
+    """histories the op alphabet cannot express: a context manager object created before the configuration changes and
+    entered afterwards, the object bound by `as` mutated inside the block, the decorator form called repeatedly.
+    (plotly simulated as installed, so that two valid backends exist.)  -> list of property failures"""
+    fails = []
+
+    def reset(b):
+        cfgmod._global_config.clear()
+        cfgmod._global_config["plot_backend"] = b
+        cfgmod.find_spec = lambda name: object()
+
+    for first, later, arg in (("matplotlib", "plotly", None), ("plotly", "matplotlib", None), ("matplotlib", "plotly", "matplotlib"), ("plotly", "matplotlib", "plotly")):
+        for boom in (False, True):
+            reset(first)
+            cm = config_context(plot_backend=arg)
+            set_config(plot_backend=later)
+            at_entry = get_config()
+            inside = None
+            try:
+                with cm:
+                    inside = get_config()
+                    if boom:
+                        raise Boom()
+            except Boom:
+                pass
+            want_inside = dict(plot_backend=arg if arg is not None else later)
+            if inside != want_inside or get_config() != at_entry:
+                fails.append(dict(case=dict(program=f"directed: cm = config_context(plot_backend={arg!r}) created under {first!r}, set_config({later!r}), with cm: ... "
+                                                    f"({'exception' if boom else 'normal'} exit)", plotly_available=True),
+                                  clauses=[f"inside the block {inside} (expected {want_inside}); after the block {get_config()} differs from the configuration at entry {at_entry}"]))
+    for first, other in (("matplotlib", "plotly"), ("plotly", "matplotlib")):
+        reset(first)
+        try:
+            with config_context(plot_backend=other) as handed:
+                if isinstance(handed, dict):
+                    handed["plot_backend"] = other
+                    handed["extra"] = 1
+        except Exception as e:  # noqa: BLE001
+            fails.append(dict(case=dict(program=f"directed: with config_context({other!r}) as c: mutate c", plotly_available=True),
+                              clauses=[f"leaving the block raised {type(e).__name__}"]))
+        if get_config() != dict(plot_backend=first):
+            fails.append(dict(case=dict(program=f"directed: with config_context({other!r}) as c: mutate c (configuration at entry {first!r})", plotly_available=True),
+                              clauses=[f"after the block the configuration is {get_config()}, at entry it was {first!r}"]))
+    reset("matplotlib")
+
+    @config_context(plot_backend="plotly")
+    def inner():
+        return get_config()["plot_backend"]
+    for cur in ("matplotlib", "plotly", "matplotlib"):
+        set_config(plot_backend=cur)
+        got = inner()
+        if got != "plotly" or get_config() != dict(plot_backend=cur):
+            fails.append(dict(case=dict(program=f"directed: decorated function called with the configuration {cur!r}", plotly_available=True),
+                              clauses=[f"inside {got!r} (expected 'plotly'); afterwards {get_config()} (expected {cur!r})"]))
+    return fails
+
+
 def coq_case(av, flat, trace):
     obs = "; ".join(f"({COQ_B.get(b, 'Matplotlib') if b in COQ_B else 'BADVALUE'}, {o})" for b, o in trace)
     return f"mkccase {'true' if av else 'false'} [{'; '.join(flat)}] [{obs}]"
@@ -193,6 +250,8 @@ def main():
         lens[len(flat)] = lens.get(len(flat), 0) + 1
         if len(samples) < 3 and len(flat) >= 6:
             samples.append(dict(plotly_available=av, history=flat, observed=trace))
+    for f in directed_probes():
+        pfails.insert(0, dict(case=f["case"], history=[], clauses=f["clauses"], observed=None))
     # restore the real find_spec and default
     from importlib.util import find_spec
     cfgmod.find_spec = find_spec
